@@ -1,0 +1,170 @@
+// SPDX-License-Identifier: Apache-2.0
+// © James Ross Ω FLYING•ROBOTS <https://github.com/flyingrobots>
+//! Verification-only seams (compiled only with `--cfg echo_verif`).
+//!
+//! Nothing in this module is part of the public API. It exposes a handful of
+//! crate-private functions so an external model-conformance harness can drive
+//! them with arbitrary inputs, and a scripted/recorded claim order for the
+//! cross-warp work queue. With the cfg flag absent this file is not compiled.
+
+use std::sync::atomic::{AtomicUsize, Ordering};
+use std::sync::Mutex;
+
+use crate::graph::GraphStore;
+use crate::ident::{Hash, NodeKey};
+use crate::snapshot_accum::SnapshotAccumulator;
+use crate::tick_patch::WarpOp;
+use crate::warp_state::{WarpInstance, WarpState};
+
+/// Computes the canonical delta between two arbitrary states (wrapper around the
+/// crate-private `tick_patch::diff_state`).
+#[must_use]
+pub fn diff_state(before: &WarpState, after: &WarpState) -> Vec<WarpOp> {
+    crate::tick_patch::diff_state(before, after)
+}
+
+/// Applies a raw op list with the engine's patch-application routine (no
+/// canonicalisation, no digest).
+///
+/// # Errors
+///
+/// Returns the typed patch error of the first op that fails to apply.
+pub fn apply_ops(state: &mut WarpState, ops: &[WarpOp]) -> Result<(), crate::TickPatchError> {
+    crate::tick_patch::apply_ops_to_state(state, ops)
+}
+
+/// Inserts (or replaces) an instance together with its store.
+pub fn upsert_instance(state: &mut WarpState, instance: WarpInstance, store: GraphStore) {
+    state.upsert_instance(instance, store);
+}
+
+/// Legacy (store-walking) state root of an arbitrary state.
+#[must_use]
+pub fn legacy_state_root(state: &WarpState, root: &NodeKey) -> Hash {
+    crate::snapshot::compute_state_root(state, root)
+}
+
+/// State root computed by the columnar accumulator for an arbitrary state.
+#[must_use]
+pub fn accumulator_state_root(state: &WarpState, root: &NodeKey) -> Hash {
+    SnapshotAccumulator::from_warp_state(state)
+        .build(root, [0u8; 32], 0)
+        .state_root
+}
+
+/// State root and WSC bytes computed by the accumulator after applying `ops` to
+/// an accumulator seeded from `state`.
+#[must_use]
+pub fn accumulator_apply(state: &WarpState, ops: Vec<WarpOp>, root: &NodeKey) -> (Hash, Vec<u8>) {
+    let mut acc = SnapshotAccumulator::from_warp_state(state);
+    acc.apply_ops(ops);
+    let out = acc.build(root, [0u8; 32], 0);
+    (out.state_root, out.wsc_bytes)
+}
+
+/// Write targets the footprint guard attributes to `op`:
+/// `(nodes, edges, attachments, is_instance_op, op_warp)`.
+#[cfg(any(debug_assertions, feature = "footprint_enforce_release"))]
+#[cfg(not(feature = "unsafe_graph"))]
+#[must_use]
+pub fn op_write_targets(
+    op: &WarpOp,
+) -> (
+    Vec<crate::ident::NodeId>,
+    Vec<crate::ident::EdgeId>,
+    Vec<crate::attachment::AttachmentKey>,
+    bool,
+    Option<crate::ident::WarpId>,
+) {
+    let t = crate::footprint_guard::op_write_targets(op);
+    (t.nodes, t.edges, t.attachments, t.is_instance_op, t.op_warp)
+}
+
+// ---------------------------------------------------------------------------
+// Scripted / recorded claim order for `parallel::execute_work_queue`.
+// ---------------------------------------------------------------------------
+
+/// One claim observed in the work queue: `(worker index, per-worker sequence, unit index)`.
+pub type ClaimRecord = (usize, usize, usize);
+
+struct ClaimState {
+    /// `script[w]` = unit indices worker `w` must claim, in order.
+    script: Option<Vec<Vec<usize>>>,
+    /// Position of each worker inside its script row / its claim sequence.
+    cursor: Vec<usize>,
+    log: Vec<ClaimRecord>,
+    recording: bool,
+}
+
+static CLAIMS: Mutex<ClaimState> = Mutex::new(ClaimState {
+    script: None,
+    cursor: Vec::new(),
+    log: Vec::new(),
+    recording: false,
+});
+static NEXT_WORKER: AtomicUsize = AtomicUsize::new(0);
+
+fn lock_claims() -> std::sync::MutexGuard<'static, ClaimState> {
+    match CLAIMS.lock() {
+        Ok(g) => g,
+        Err(p) => p.into_inner(),
+    }
+}
+
+/// Installs a claim script (`script[w]` = unit indices for worker `w`, in order)
+/// and turns claim recording on. `None` removes the script (recording stays on).
+pub fn set_claim_script(script: Option<Vec<Vec<usize>>>) {
+    let mut st = lock_claims();
+    st.script = script;
+    st.cursor.clear();
+    st.log.clear();
+    st.recording = true;
+}
+
+/// Removes any script, stops recording and returns the recorded claims.
+pub fn take_claim_log() -> Vec<ClaimRecord> {
+    let mut st = lock_claims();
+    st.script = None;
+    st.recording = false;
+    st.cursor.clear();
+    std::mem::take(&mut st.log)
+}
+
+/// Called once at the start of `execute_work_queue` (spawning thread).
+pub(crate) fn begin_queue() {
+    NEXT_WORKER.store(0, Ordering::SeqCst);
+    let mut st = lock_claims();
+    st.cursor.clear();
+}
+
+/// Called in the spawning thread once per worker, in spawn order.
+pub(crate) fn next_worker_ix() -> usize {
+    NEXT_WORKER.fetch_add(1, Ordering::SeqCst)
+}
+
+/// Called by worker `worker_ix` right after it drew `drawn` from the shared
+/// counter. Returns the unit index the worker must process (`unit_count` or
+/// more means "no more work").
+pub(crate) fn claim(worker_ix: usize, drawn: usize, unit_count: usize) -> usize {
+    let mut st = lock_claims();
+    if !st.recording {
+        return drawn;
+    }
+    if st.cursor.len() <= worker_ix {
+        st.cursor.resize(worker_ix + 1, 0);
+    }
+    let seq = st.cursor[worker_ix];
+    st.cursor[worker_ix] = seq + 1;
+    let unit = match &st.script {
+        Some(rows) => rows
+            .get(worker_ix)
+            .and_then(|row| row.get(seq))
+            .copied()
+            .unwrap_or(usize::MAX),
+        None => drawn,
+    };
+    if unit < unit_count {
+        st.log.push((worker_ix, seq, unit));
+    }
+    unit
+}
